@@ -20,7 +20,7 @@ func main() {
 	nodes := flag.Int("nodes", 3, "nodes")
 	ctrs := flag.String("ctrs", "k", "abstract counter fields")
 	regs := flag.String("regs", "r", "abstract register fields")
-	variant := flag.String("variant", "plain", "plain|branchable|indexed")
+	variant := flag.String("variant", "plain", "plain|branchable|indexed|wide")
 	repeat := flag.Int("repeat", 1, "replay each behaviour this many times with fresh values")
 	maxB := flag.Int("max", 0, "max behaviours (0 = all)")
 	maximal := flag.Bool("maximal", true, "keep only maximal behaviours of a simulation dump")
